@@ -277,9 +277,22 @@ class C03(Prop):
         s.append(("corpus-elements", S.corpus_d(("RR", "Question", "DomainName"))))
         s.append(("over-acceptance", overaccept_cases(rng)))
         s.append(("guards", guard_cases()))
+        # the same inputs as W cases: the "model" column is then the Coq reference decoder Spec/Wire.v
+        w = []
+        for name, cs in s:
+            w += ["W" + c[1:] for c in cs if c.split(" ")[1] in ("Dns", "RR", "Question", "DomainName", "Flags")]
+        s.append(("coq-reference-decoder", w))
         return s
 
+    def agree(self, case, il, ml):
+        if case.startswith("W "):
+            # one-sided: library accepts => the Coq reference decoder accepts with the same value
+            return (not il.startswith("OK ")) or il == ml
+        return self.view(case, il) == self.view(case, ml)
+
     def view(self, case, line):
+        if case.startswith("W "):
+            return line
         d = parse_d(line)
         if d["status"] != "OK":
             return d["status"]
@@ -289,6 +302,8 @@ class C03(Prop):
         return line.startswith("OK ")
 
     def oracle(self, case, line):
+        if case.startswith("W "):
+            return "implementation panicked: " + line[:200] if line.startswith("PANIC") else None
         d = parse_d(line)
         if d["status"] == "PANIC":
             return "implementation panicked: " + line[:200]
@@ -387,15 +402,32 @@ class C04(Prop):
             if len(w) <= 65535:
                 self.add(out, m, w)
         st.append(("big", out))
+        w_ = []
+        for name, cs in st:
+            w_ += ["W" + c[1:] for c in cs]
+        # near-miss inputs too: whatever the Coq reference decoder accepts, the library must accept with the same value
+        w_ += ["W" + c[1:] for c in S.near_miss_d(rng, 100 if tier == "quick" else 1000, per=6)]
+        w_ += ["W" + c[1:] for c in guard_cases()]
+        st.append(("coq-reference-decoder", w_))
         return st
 
+    def agree(self, case, il, ml):
+        if case.startswith("W "):
+            # completeness: the Coq reference decoder accepts => the library accepts with the same value
+            return (not ml.startswith("OK ")) or il == ml
+        return self.view(case, il) == self.view(case, ml)
+
     def view(self, case, line):
+        if case.startswith("W "):
+            return line
         d = parse_d(line)
         if d["status"] != "OK":
             return d["status"]
         return "OK " + R.canon_fold(d["canon"])
 
     def oracle(self, case, line):
+        if case.startswith("W "):
+            return "implementation panicked: " + line[:200] if line.startswith("PANIC") else None
         d = parse_d(line)
         if d["status"] == "PANIC":
             return "implementation panicked: " + line[:200]
